@@ -1086,7 +1086,7 @@ def run(chk):
             b0 = D.cents(c.b0[c.primary])
             fund = fund_text(c.account, (2000, 1, 1), b0.text(), c.primary)
             fund_sx = "(%s %s %s)" % (date_sx((2000, 1, 1)), b0.sx3(), enc(c.primary))
-        hx_lines.append("%s cfg=%s src=%s fund=%s" % (c.id, enc(yaml), enc(text), enc(fund)))
+        hx_lines.append("%s cfg=%s src=%s fund=%s cmd=1" % (c.id, enc(yaml), enc(text), enc(fund)))
         meta.append((c, yaml, text, cfg_sx, fund, fund_sx))
     impl = run_sharded(HX, ["c16"], hx_lines)
     drv_lines = []
@@ -1113,6 +1113,14 @@ def run(chk):
         except Exception as e:      # noqa
             ist, itx = "unparsed", str(e)
         iproc = parse_proc_impl(f.get("proc", "-"))
+        # the real COMMAND (cmd::ImportCmd::run on files: cli/src/cmd.rs glue) against the library path the rest of this check observes
+        cmdv = f.get("cmd", "-")
+        chk.count("command:" + cmdv.split(":")[0])
+        if cmdv.startswith("diff"):
+            chk.disagreements += 1
+            chk.violation("`okane import` (ImportCmd::run on the files) does not print what import::import + to_double_entry give for the same configuration and statement",
+                          dict(replay, stream="c16 import command", library_printed=f.get("printed"), command=cmdv[5:]),
+                          no_failing_input=True, tag="corr")
         chk.count("import:" + ist + (":" + str(itx).split(" ")[0] if ist != "ok" else ""))
         chk.count("proc:" + iproc[0] + (":" + iproc[2] if iproc[0] == "err" else ""))
         if not is_mal:
